@@ -98,6 +98,19 @@ def dom_macro(ctx):
                     tbl.append((cs[0][1], cs[1][1]))
     tbl_ok = sorted(tbl) == sorted([(HEAD05, 236), (HEAD06, 237)])
     obs.append(Ob(r, "pairing", pair_ok and tbl_ok, "the pushed codeword is paired with the matched header: (MACRO05_HEAD, 236), (MACRO06_HEAD, 237)", detail={"table": tbl, "flow": det}))
+    # "if" direction: once the header test succeeds nothing else is consulted before the macro codeword is pushed
+    straight = True
+    for b, t in pushes:
+        ok1 = False
+        for g in g_starts:
+            cur = g[1][1]   # target of the true edge
+            hops = 0
+            while cur != b and hops < 4 and body.term(cur)["k"] == "Goto":
+                cur = body.term(cur)["target"]
+                hops += 1
+            ok1 = ok1 or cur == b
+        straight = straight and ok1
+    obs.append(Ob(r, "if-direction", straight and bool(pushes), "on the true edge of the header test the macro codeword is pushed without any further condition"))
     # at most one macro codeword: no path from a push back to a push
     once = True
     for b, t in pushes:
